@@ -6,7 +6,7 @@ import random
 from concurrent.futures import ThreadPoolExecutor
 
 DEVS = {"C01-empty-any-cookie", "C01-empty-delete-noop", "C01-empty-lost-on-reload", "C01-unchanged-keeps-metadata",
-        "C40-forwarder-skips-unmounted-copies"}
+        "C40-forwarder-skips-copies", "C40-concurrent-overwrites-diverge"}
 FAULTS = {"ro", "rw", "unmount", "mount", "voldelete"}
 GEN_W = "SPECIFICATION Spec\nINVARIANT EmitW\nVIEW View\nCHECK_DEADLOCK FALSE"
 GEN_ALL = "SPECIFICATION Spec\nINVARIANT Emit\nCHECK_DEADLOCK FALSE"
@@ -24,7 +24,8 @@ REPL = {2: ["001", "010", "100"], 3: ["002", "011", "110", "200"]}
 
 def base_consts(**kw):
     c = {"N": 2, "Keys": {1}, "Cookies": {"c1"}, "Datas": {"e", "a"}, "MetaSet": {"m0", "m1"}, "VTtl": "", "MaxOps": 3,
-         "BKF": DEVS, "AckMissing": False, "WithTransient": True, "Faults": FAULTS, "NoCountCheck": False}
+         "BKF": DEVS, "AckMissing": False, "WithTransient": True, "Faults": FAULTS, "NoCountCheck": False,
+         "WithRace": False}
     c.update(kw)
     return c
 
@@ -42,6 +43,8 @@ def from_model(h):
     for op in h:
         if op["ev"] == "upload":
             ops.append(upload(op["to"], op["k"], op["c"], op["d"], m=op["m"], **META[op["m"]]))
+        elif op["ev"] == "race":
+            ops.append(dict(op))
         else:
             ops.append(dict(op))
             if op["ev"] == "fault" and op["kind"] == "unmount":
@@ -71,7 +74,11 @@ def random_hists(rng, count, length):
                                   pairs=rng.choice(["p0", "p0", "p1", "p2"]), ts=rng.choice(["none", "none", "old", "zero"]),
                                   ttl=rng.choice(["", "", "", "1h", "3d", "0m", "300m"]), gz=rng.random() < 0.2,
                                   fsync=rng.random() < 0.15))
-            elif x < 0.75:
+            elif x < 0.60 and mounted:
+                d1, d2 = rng.sample(["a", "b", "j", "L", "r", "h"], 2)
+                ops.append({"ev": "race", "k": rng.choice([1, 1, 2]), "c": "c1", "to1": rng.choice(sorted(mounted)), "d1": d1,
+                            "to2": rng.choice(sorted(mounted)), "d2": d2})
+            elif x < 0.78:
                 pool = sorted(mounted) if mounted and rng.random() < 0.92 else sorted(member)
                 ops.append({"ev": "delete", "to": rng.choice(pool), "k": rng.choice([1, 1, 2]),
                             "c": "c2" if rng.random() < 0.06 else "c1"})
@@ -108,6 +115,7 @@ def random_hists(rng, count, length):
 
 def nontrivial(lines):
     ok = sum(1 for s in lines if ('"ev":"upload"' in s or '"ev":"delete"' in s) and '"res":"ok"' in s)
+    ok += sum(1 for s in lines if '"ev":"race"' in s and '"res1":"ok"' in s and '"res2":"ok"' in s)
     return ok >= 1 and len(lines) >= 5
 
 
@@ -115,7 +123,7 @@ def mutate(evs):
     """binding self-test: after a successful upload, one replica's name is altered in the recorded snapshot"""
     last_ok = None
     for i, e in enumerate(evs):
-        if e["ev"] in ("upload", "delete", "fault"):
+        if e["ev"] in ("upload", "delete", "fault", "race"):
             last_ok = e if e["ev"] == "upload" and e.get("res") == "ok" and e.get("d") != "e" else None
         elif e["ev"] == "snap" and last_ok is not None and e["k"] == last_ok["k"]:
             if len(e["obs"]) >= 2 and all(o["st"] == "data" and o["d"] != "e" for o in e["obs"]):
@@ -133,16 +141,23 @@ def run(ctx):
     runs = [
         ("MC_C40_n2", base_consts(MaxOps=4 if th else 3), None),
         # without empty payloads and metadata rewrites no deviation of the C01 family is needed
-        ("MC_C40_strict", base_consts(BKF={"C40-forwarder-skips-unmounted-copies"}, Datas={"a", "b"}, MetaSet={"m1"},
+        ("MC_C40_strict", base_consts(BKF={"C40-forwarder-skips-copies"}, Datas={"a", "b"}, MetaSet={"m1"},
                                       MaxOps=4 if th else 3), None),
         # the model of the code before the fix (replicate request acknowledged by a server without the volume)
         # violates the statement: the invariant is able to see it
         ("MC_C40_ackmissing", base_consts(AckMissing=True), "Agreement"),
+        # two uploads for one file id at the same time: every copy may end with either blob - admitted only through
+        # the named deviation; without it the invariant is violated (model-predicted, reproduced on the real servers)
+        ("MC_C40_race", base_consts(WithRace=True, Datas={"a", "b"}, MetaSet={"m1"}, WithTransient=False,
+                                    Faults={"ro", "rw"}, MaxOps=3 if th else 2,
+                                    BKF={"C40-concurrent-overwrites-diverge", "C01-unchanged-keeps-metadata"}), None),
+        ("MC_C40_race_strict", base_consts(WithRace=True, Datas={"a", "b"}, MetaSet={"m1"}, WithTransient=False,
+                                           Faults=set(), MaxOps=2, BKF=set()), "SnapsAdmitted"),
     ]
     if th:
         runs.append(("MC_C40_n3", base_consts(N=3, MaxOps=3), None))
-        runs.append(("MC_C40_n3_k2", base_consts(N=3, Keys={1, 2}, Datas={"a"}, MetaSet={"m0"}, MaxOps=4,
-                                                 BKF={"C40-forwarder-skips-unmounted-copies"}), None))
+        runs.append(("MC_C40_n3_k2", base_consts(N=3, Keys={1, 2}, Datas={"a"}, MetaSet={"m0"}, MaxOps=3,
+                                                 BKF={"C40-forwarder-skips-copies"}), None))
         runs.append(("MC_C40_nocount", base_consts(NoCountCheck=True, WithTransient=False), "Agreement"))
 
     def mc(item):
@@ -150,28 +165,28 @@ def run(ctx):
         inst = ctx.instance(name, "ReplImpl", "ReplImpl_mc.cfg", cons)
         ctx.model_check(inst, workers=2, timeout=1500, expect_violation=expect, label=name)
 
-    with ThreadPoolExecutor(max_workers=3) as pool:
+    with ThreadPoolExecutor(max_workers=4) as pool:
         list(pool.map(mc, runs))
 
     # 2. behaviours: TLC witnesses (one shortest history per implementation state and incoming operation), no
     #    transient failures (the kit cannot inject them), + seeded random executions over the full token universe
     rng = random.Random(ctx.seed)
     scripts = []
-    g2 = ctx.instance("G2_C40_n2", "ReplImpl", GEN_W, base_consts(MaxOps=4 if th else 3, WithTransient=False,
+    g2 = ctx.instance("G2_C40_n2", "ReplImpl", GEN_W, base_consts(MaxOps=4 if th else 3, WithTransient=False, WithRace=True,
+                                                                  Datas={"e", "a", "b"},
                                                                   MetaSet={"m0", "m1", "m2"} if th else {"m0", "m1"}))
     h2 = ctx.generate(g2, workers=4, timeout=1200)
     g3 = ctx.instance("G2_C40_n3", "ReplImpl", GEN_W, base_consts(N=3, MaxOps=3, WithTransient=False, Datas={"a", "e"},
                                                                   MetaSet={"m0", "m1"} if th else {"m1"}))
     h3 = ctx.generate(g3, workers=4, timeout=1200)
-    if not th:
-        h2 = rng.sample(h2, min(len(h2), 500))
-        h3 = rng.sample(h3, min(len(h3), 250))
+    h2 = rng.sample(h2, min(len(h2), 2500 if th else 120))
+    h3 = rng.sample(h3, min(len(h3), 1500 if th else 80))
     for h in h2:
         scripts.append((2, rng.choice(REPL[2]), "", from_model(h)))
     for h in h3:
         scripts.append((3, rng.choice(REPL[3]), "", from_model(h)))
-    scripts += random_hists(rng, 2500 if th else 350, 12)
-    ctx.notes["generated"] = {"witness_n2": len(h2), "witness_n3": len(h3), "random": 2500 if th else 350}
+    scripts += random_hists(rng, 1500 if th else 120, 12)
+    ctx.notes["generated"] = {"witness_n2": len(h2), "witness_n3": len(h3), "random": 1500 if th else 120}
 
     script = os.path.join(ctx.out, "script.ndjson")
     if ctx.replay:
